@@ -388,7 +388,9 @@ func checkFormatLoader(p *Program, r *Report, pre, short string) {
 			vals := append([]Val{ev.Recv}, ev.Args...)
 			switch {
 			case ev.Kind == "call" && ev.Fn == "io.TeeReader":
-				if !isR(ev.Args[0]) {
+				if w := forwardedReader(p, e, st, ev.Args[0]); w != nil && isR(w) {
+					// a hand-through wrapper around r (recorder.go: forwarder) is r for this purpose
+				} else if !isR(ev.Args[0]) {
 					ob.bad("tee", "io.TeeReader at "+evPos+" reads from "+trunc(valKey(ev.Args[0]), 80)+", not from the source reader r")
 				}
 				if !sameB(ev.Args[1]) {
